@@ -888,6 +888,18 @@ func (eng *Engine) VerifyFunc(fn *ssa.Function, opts ExecOpts) (rep *FuncReport)
 			fx.obls = append(fx.obls, o)
 		}
 	}
+	// representation invariants of the receiver's type (assumed; established by the constructors)
+	if fn.Signature.Recv() != nil && recv != nil {
+		if n := namedOf(fn.Signature.Recv().Type()); n != nil && n.Obj().Pkg() != nil {
+			tn := n.Obj().Pkg().Name() + "." + n.Obj().Name()
+			for _, inv := range eng.db.ObjInvs[tn] {
+				env := &CEnv{fx: fx, fr: fr, st: st, vars: map[string]CVal{"self": {V: recv, T: fn.Signature.Recv().Type()}}}
+				g := fx.evalClause(fr, env, inv, "objinv")
+				st.pc = c.And(st.pc, g)
+				fx.note("representation invariant of " + tn + " assumed at method entry: " + inv.Src)
+			}
+		}
+	}
 	fr.entry = st.clone()
 	fr.entryPC = st.pc
 	fx.runBody(fr, st)
